@@ -899,6 +899,14 @@ func (env *Env) specCall(x *ast.CallExpr) Val {
 	case "own":
 		s := env.term(arg(0), x.Pos())
 		return Val{T: Term{ss.slOwn(s), SBool}}
+	case "arr":
+		// arr(s): the content of slice s as an array (for ghost snapshots of a slice's elements)
+		s := env.term(arg(0), x.Pos())
+		si := ss.Info(s.Sort)
+		if si == nil || si.Kind != KSlice {
+			env.fail(x.Pos(), "arr of non-slice %s", s.Sort)
+		}
+		return Val{T: Term{ss.slArr(s), fmt.Sprintf("(Array Int %s)", si.Elem)}}
 	case "idx":
 		v := arg(0)
 		if v.Loc == nil || len(v.Loc.Path) == 0 || v.Loc.Path[len(v.Loc.Path)-1].Kind != "index" {
